@@ -11,7 +11,7 @@ import ast
 from ..model import AnalysisError, unparse
 from ..report import RuleResult
 from ._c20_sem import (Flow, attr_stores, callee_names, const_seq, dict_keys, is_em_dataset, is_metadata_of, is_self, keys_read,
-                       view)
+                       specialise, view)
 
 
 def _global_resolver(p, mod):
@@ -25,25 +25,62 @@ def _global_resolver(p, mod):
     return resolve
 
 
-def _flow(ctx, fv, fn, tables=None) -> Flow:
-    """Value origins inside the (normalised) function fv of fn; string constants and literal tables hoisted to module /
-    class level are followed as well (whatever name they were given)."""
+def _type_map(ctx) -> dict:
+    c = getattr(ctx, "cache", None)
+    if c is not None and "c20.type_map" in c:
+        return c["c20.type_map"]
+    tm = ctx.p.const_dict(ctx.p.module("objects/surveys/electromagnetics/base.py"), "TYPE_MAP")
+    if c is not None:
+        c["c20.type_map"] = tm
+    return tm
+
+
+def _flow(ctx, fn, K=None) -> Flow:
+    """Value origins inside the NORMALISED function of fn (ctx.view), specialised to class K (default: the class the
+    function is written in): branches decided by `isinstance(self, <class>)` keep only the side that class takes.
+    String constants and literal tables hoisted to module / class level are followed (whatever name they were given);
+    look-ups in the link table are folded.  fl.node is the specialised body, fl.view_node the unspecialised view."""
     p = ctx.p
+    fv = view(ctx, fn)
+    K = K if K is not None else fn.cls
     glob = _global_resolver(p, fn.module)
 
     def outer(kind, name):
         if kind == "global":
             return glob(name)
-        K = fn.cls
+        if kind == "callable":
+            # the function a call `self.m(..)` / `cls.m(..)` / `f(..)` invokes (for generator helpers), as an ast node
+            f = name.func
+            if isinstance(f, ast.Attribute) and isinstance(f.value, ast.Name) and f.value.id in ("self", "cls", fn.self_name or "self") and K is not None:
+                m = K.lookup(f.attr)
+                return m[2].node if m and m[1] == "method" else None
+            if isinstance(f, ast.Name):
+                r = p.resolve_name(fn.module, f.id)
+                return r[1].node if r and r[0] == "func" else None
+            return None
         if K is None:
             return None
         if name.startswith("__") and not name.endswith("__"):
-            a = K.class_assigns.get(name)
+            a = fn.cls.class_assigns.get(name) if fn.cls is not None else None
             return a[0] if a else None
         m = K.lookup(name)
         return m[2] if m and m[1] == "assign" else None
 
-    return Flow(fv.node, tables, outer)
+    def is_a(cname):
+        if K is None:
+            return None
+        r = p.resolve_name(fn.module, cname)
+        if not r or r[0] != "class":
+            return None
+        C = r[1]
+        if C in K.mro:
+            return True
+        return None if any(C in S.mro for S in p.subclasses(K)) else False
+
+    node = specialise(fv.node, fn.self_name or "self", is_a)
+    fl = Flow(node, {"TYPE_MAP": _type_map(ctx)}, outer)
+    fl.view_node = fv.node
+    return fl
 
 
 def em_tables(ctx):
@@ -138,11 +175,10 @@ def _default_em_keys(ctx, K):
     g = None
     if dm and dm[1] == "prop" and dm[2].getter is not None:
         g = dm[2].getter
-        gv = view(ctx, g)
-        fl = _flow(ctx, gv, g)
-        dicts = [d for d in ast.walk(gv.node) if isinstance(d, ast.Dict)]
+        fl = _flow(ctx, g, K)
+        dicts = [d for d in ast.walk(fl.node) if isinstance(d, ast.Dict)]
         # the returned value may be a (copy of a) table hoisted to module / class level
-        for r in ast.walk(gv.node):
+        for r in ast.walk(fl.node):
             if isinstance(r, ast.Return) and r.value is not None:
                 for o in fl.origins(r.value):
                     while isinstance(o, ast.Call) and len(o.args) == 1 and not o.keywords and callee_names(fl, o) & {"deepcopy", "copy", "dict"}:
@@ -262,9 +298,9 @@ def rule_keys(ctx) -> RuleResult:
         pr = K.props.get(link)
         if pr is None or pr.getter is None or pr.setter is None:
             raise AnalysisError(f"anchor {K.name}.{link} not found")
-        gv = view(ctx, pr.getter)
+        gfl = _flow(ctx, pr.getter, K)
         gsn = pr.getter.self_name or "self"
-        gk = keys_read(_flow(ctx, gv, pr.getter), gv.node, lambda c: is_metadata_of(c, gsn))
+        gk = keys_read(gfl, gfl.node, lambda c: is_metadata_of(c, gsn))
         ok = gk == {partner_key}
         res.inst(f"{K.name}.{link} getter reads {sorted(gk)}", ok=ok)
         if not ok:
@@ -272,9 +308,8 @@ def rule_keys(ctx) -> RuleResult:
         if len(pr.setter.params) < 2:
             raise AnalysisError(f"anchor {K.name}.{link} setter has no value parameter")
         sn, arg = pr.setter.params[0], pr.setter.params[1]
-        sv = view(ctx, pr.setter)
-        fl = _flow(ctx, sv, pr.setter)
-        stores = attr_stores(sv.node, "metadata", fl)
+        fl = _flow(ctx, pr.setter, K)
+        stores = attr_stores(fl.node, "metadata", fl)
         # the dictionary (or dictionaries) recorded: key -> the things its value may stand for
         pairs: dict = {}
         complete = bool(stores)
@@ -304,10 +339,9 @@ def rule_keys(ctx) -> RuleResult:
     if bmp is None or bmp.setter is None:
         raise AnalysisError("anchor BaseElectrode.metadata setter not found")
     bm = bmp.setter
-    bv = view(ctx, bm)
-    fl = _flow(ctx, bv, bm)
+    fl = _flow(ctx, bm)
     required = set()
-    for n in ast.walk(bv.node):
+    for n in ast.walk(fl.node):
         # keys tested for presence: `<key> in <mapping>` with the key a constant (directly, or a variable ranging over constants)
         if isinstance(n, ast.Compare) and len(n.ops) == 1 and isinstance(n.ops[0], (ast.In, ast.NotIn)) and not isinstance(n.comparators[0], (ast.List, ast.Tuple, ast.Set, ast.Constant)):
             ks = fl.consts(n.left)
@@ -341,17 +375,16 @@ def _returns_self_only(g) -> bool:
 def _em_keys_read(g, ctx) -> set:
     """Constant keys the getter reads from the 'EM Dataset' dictionary of the entity's own metadata (through aliases,
     a key held in a variable, `.get`, an extracted look-up helper)."""
-    gv = view(ctx, g)
+    fl = _flow(ctx, g)
     sn = g.self_name or "self"
-    return keys_read(_flow(ctx, gv, g), gv.node, lambda c: is_em_dataset(c, sn))
+    return keys_read(fl, fl.node, lambda c: is_em_dataset(c, sn))
 
 
 def _em_keys_written(s, ctx) -> set:
     """Constant keys of the dictionaries handed to edit_em_metadata."""
-    sv = view(ctx, s)
-    fl = _flow(ctx, sv, s)
+    fl = _flow(ctx, s)
     out = set()
-    for n in ast.walk(sv.node):
+    for n in ast.walk(fl.node):
         if isinstance(n, ast.Call) and "edit_em_metadata" in callee_names(fl, n):
             arg = n.args[0] if n.args else next((k.value for k in n.keywords if k.arg == "entries"), None)
             if arg is None:
@@ -363,8 +396,8 @@ def _em_keys_written(s, ctx) -> set:
 
 
 def _stores_field(s, field, ctx) -> bool:
-    sv = view(ctx, s)
-    return bool(attr_stores(sv.node, field, _flow(ctx, sv, s)))
+    fl = _flow(ctx, s)
+    return bool(attr_stores(fl.node, field, fl))
 
 
 def _passes_on_every_path(fn_node, pred) -> bool:
@@ -398,8 +431,7 @@ def rule_prop(ctx) -> RuleResult:
         raise AnalysisError("anchor BaseEMSurvey.metadata setter not found")
     st = pr.setter
     sn, prm = st.params[0], st.params[1]
-    sv = view(ctx, st)
-    fl = _flow(ctx, sv, st, tables={"TYPE_MAP": type_map})
+    fl = _flow(ctx, st)
 
     def links_of(e) -> set:
         """Names L such that `e` may stand for the partner `getattr(self, L, ...)` / `self.L`."""
@@ -414,8 +446,8 @@ def rule_prop(ctx) -> RuleResult:
 
     # partners enumerated: what the things that receive a `_metadata` / are handed to update_attribute(.., 'metadata') /
     # are looked up with getattr(self, <name>) may stand for
-    cands = [r for r, _, _ in attr_stores(sv.node, "_metadata", fl)]
-    for n in ast.walk(sv.node):
+    cands = [r for r, _, _ in attr_stores(fl.node, "_metadata", fl)]
+    for n in ast.walk(fl.node):
         if isinstance(n, ast.Call) and "update_attribute" in callee_names(fl, n) and len(n.args) > 1 and fl.consts(n.args[1]) == {"metadata"}:
             cands.append(n.args[0])
         elif isinstance(n, ast.Call) and isinstance(n.func, ast.Name) and n.func.id == "getattr" and len(n.args) >= 2:
@@ -432,7 +464,7 @@ def rule_prop(ctx) -> RuleResult:
                  "a partner kind is not updated when the shared survey parameters change")
     if enumerated:
         # the dictionary the entity itself keeps: what is stored in self._metadata (or the parameter handed to the base setter)
-        kept = [v for r, v, _ in attr_stores(sv.node, "_metadata", fl) if any(is_self(a, sn) for a in fl.alts(r))] or [ast.Name(id=prm, ctx=ast.Load())]
+        kept = [v for r, v, _ in attr_stores(fl.node, "_metadata", fl) if any(is_self(a, sn) for a in fl.alts(r))] or [ast.Name(id=prm, ctx=ast.Load())]
         kept_texts = [fl.texts(v) for v in kept]
         kept_names = {v.id for v in kept if isinstance(v, ast.Name)}
 
@@ -444,7 +476,7 @@ def rule_prop(ctx) -> RuleResult:
                 return True
             return bool(tw) and all(is_metadata_of(a, sn) for a in fl.alts(w))
 
-        part = [(r, v) for r, v, _ in attr_stores(sv.node, "_metadata", fl) if links_of(r)]
+        part = [(r, v) for r, v, _ in attr_stores(fl.node, "_metadata", fl) if links_of(r)]
         covered = set().union(*[links_of(r) for r, _ in part]) if part else set()
         ok1 = bool(part) and all(same_dict(v) for _, v in part) and (enumerated & need) <= covered
         res.inst("per partner: <partner>._metadata = <the dictionary stored on self>", nontrivial=True, ok=ok1)
@@ -452,7 +484,7 @@ def rule_prop(ctx) -> RuleResult:
             res.find("BaseEMSurvey", "metadata", "partner's _metadata is not bound to the same dictionary", st.where,
                      "edits through one side are not visible on the other")
         pers = set()
-        for n in ast.walk(sv.node):
+        for n in ast.walk(fl.node):
             if isinstance(n, ast.Call) and "update_attribute" in callee_names(fl, n) and len(n.args) > 1 and fl.consts(n.args[1]) == {"metadata"}:
                 pers |= links_of(n.args[0])
         ok2 = bool(pers) and (enumerated & need) <= pers
@@ -463,14 +495,13 @@ def rule_prop(ctx) -> RuleResult:
     ee = p.cls("BaseEMSurvey").methods.get("edit_em_metadata")
     if ee is None:
         raise AnalysisError("anchor BaseEMSurvey.edit_em_metadata not found")
-    ev = view(ctx, ee)
     esn = ee.self_name or "self"
-    efl = _flow(ctx, ev, ee)
+    efl = _flow(ctx, ee)
 
     def sets_metadata(stmt) -> bool:
         return any(any(is_self(a, esn) for a in efl.alts(r)) for r, _, _ in attr_stores(stmt, "metadata", efl))
 
-    ok3 = _passes_on_every_path(ev.node, sets_metadata)
+    ok3 = _passes_on_every_path(efl.view_node, sets_metadata)
     res.inst("edit_em_metadata ends with `self.metadata = ...`", ok=ok3)
     if not ok3:
         res.find("BaseEMSurvey", "edit_em_metadata", "does not end in the metadata setter", ee.where,
@@ -507,25 +538,24 @@ def rule_copy(ctx) -> RuleResult:
             if fn is None or fn in seen:
                 continue
             seen.add(fn)
-            fv = view(ctx, fn)
             sn = fn.self_name or "self"
-            fl = _flow(ctx, fv, fn, tables={"TYPE_MAP": type_map})
+            fl = _flow(ctx, fn)
 
             def not_self(e) -> bool:
                 return not any(is_self(a, sn) for a in fl.origins(e))
 
             sinks = []
             for link in sorted(links):
-                for recv, val, node in attr_stores(fv.node, link, fl):
+                for recv, val, node in attr_stores(fl.node, link, fl):
                     if not_self(recv):
                         tgt = next((t for t in getattr(node, "targets", []) if isinstance(t, ast.Attribute) and t.attr == link), None)
                         sinks.append((tgt if tgt is not None else recv, val, node))
-            for n in ast.walk(fv.node):
+            for n in ast.walk(fl.node):
                 # setattr(<new entity>, <name computed from the link table>, value)
                 if isinstance(n, ast.Call) and isinstance(n.func, ast.Name) and n.func.id == "setattr" and len(n.args) == 3 and not isinstance(n.args[1], ast.Constant):
                     alts = fl.alts(n.args[1])
                     from_table = any(isinstance(x, ast.Name) and x.id == "TYPE_MAP" for a in alts for x in ast.walk(a))
-                    to_link = any(isinstance(a, ast.Constant) and a.value in links for a in alts)
+                    to_link = any(isinstance(x, ast.Constant) and isinstance(x.value, str) and x.value in links for a in alts for x in ast.walk(a))
                     if (from_table or to_link) and not_self(n.args[0]):
                         sinks.append((n.args[0], n.args[2], n))
             sinks.sort(key=lambda s: (s[2].lineno, s[2].col_offset))
@@ -541,7 +571,7 @@ def rule_copy(ctx) -> RuleResult:
                              "the copy now point at the same partner and its metadata is overwritten")
             # omit lists handed to the copy calls on entities (super().copy / <partner>.copy / ._super_copy)
             resolve = _global_resolver(p, fn.module)
-            for n in ast.walk(fv.node):
+            for n in ast.walk(fl.node):
                 if not (isinstance(n, ast.Call) and isinstance(n.func, ast.Attribute) and n.func.attr in COPY_CALLS):
                     continue
                 if n.func.attr == "copy" and not any(_entity_receiver(a, links) for a in fl.alts(n.func.value)):
@@ -590,8 +620,7 @@ def rule_store(ctx) -> RuleResult:
             raise AnalysisError(f"anchor {cname}.metadata setter not found")
         st = pr.setter
         sn = st.self_name or "self"
-        sv = view(ctx, st)
-        fl = _flow(ctx, sv, st)
+        fl = _flow(ctx, st)
 
         def stores(a):
             for x in ast.walk(a):
@@ -608,7 +637,7 @@ def rule_store(ctx) -> RuleResult:
                         return True
             return False
 
-        ok = _passes_on_every_path(sv.node, stores)
+        ok = _passes_on_every_path(fl.view_node, stores)
         res.inst(f"{cname}.metadata setter: every normal exit passes the store / base-setter delegation", nontrivial=True, ok=ok)
         if not ok:
             rets = [n for n in ast.walk(st.node) if isinstance(n, ast.Return)]
